@@ -476,13 +476,7 @@ func ruleDeleteOnlySuperseded(p *Prog, r *Res, ruleC string) {
 			root := f.Root()
 			switch {
 			case f.Key() == "manager.indexReleaser.release":
-				guarded := false
-				ast.Inspect(f.Body(), func(y ast.Node) bool {
-					if ifs, ok := y.(*ast.IfStmt); ok && within(c, ifs.Body) && strings.Contains(types.ExprString(ifs.Cond), "usedIndexes") && strings.Contains(types.ExprString(ifs.Cond), "== 0") {
-						guarded = true
-					}
-					return true
-				})
+				guarded := useCountZeroGuards(p, f, c)
 				r.Check(guarded, ruleC, key, p.Pos(c), "index file removed when its use count reached zero", "index file removed without the use-count test")
 			case f.Key() == "manager.Manager.saveState":
 				r.OkTrivial(ruleC, key, p.Pos(c), "old state file; ordering checked by C12-a")
